@@ -1,32 +1,23 @@
-#!/usr/bin/env python3
+#!/venv/bin/python
 """Regenerates /verif/MANIFEST.json from the table below (keeps it valid at all times)."""
 import json
 import os
+import sys
 
 HERE = os.path.dirname(os.path.dirname(os.path.abspath(__file__)))
 
 # id -> (technique, level text, level note, DESIGN section)
-CHECKS = {
-    "C13": ("Hypothesis-generated axes/data + complete enumeration of lengths, against the defining Fourier sum "
-            "(dense matrix product) and the identity round trip",
-            "Every length 2..257, both domains and both axis types are enumerated with fixed data, and starts, steps "
-            "and complex data are generated; the returned transform is compared point by point with the defining "
-            "sum on the returned axis, FT followed by inverse FT with the original values and axis, and the axis "
-            "round trip element-wise (tolerance 1e-10*N relative).",
-            "Inverse-first round trips and round trips of upper-half frequency-domain functions are not claimed "
-            "(not stated by the property / not injective). Lengths > 257 are not explored.",
-            "DESIGN.md section 3 C13"),
-    "C20": ("exhaustive enumeration of (size,start,length,rank) + Hypothesis-generated ranges/APIs against the "
-            "definition of an exact balanced partition; simulated ranks",
-            "Every (process count, start, length, rank) on a finite grid is enumerated completely and larger "
-            "configurations are sampled with Hypothesis; blocks from _calculate_ranges and "
-            "block_distributed_range/list/array (with and without return_index) are compared with the definition "
-            "of a contiguous, disjoint, balanced cover, and per-rank partial sums are added and compared with the "
-            "serial result.",
-            "Ranks are simulated by setting attributes on the DistributedConfiguration; no real MPI schedule. "
-            "Beyond the grid the claim is sampled, not exhaustive.",
-            "DESIGN.md section 3 C20"),
-}
+def load_checks():
+    import importlib, glob
+    sys.path.insert(0, HERE)
+    out = {}
+    for f in sorted(glob.glob(os.path.join(HERE, "qv", "checks", "c[0-9][0-9].py"))):
+        mod = importlib.import_module("qv.checks." + os.path.basename(f)[:-3])
+        out[mod.ID] = (mod.TECHNIQUE, mod.LEVEL, mod.NOTE, "DESIGN.md section 3 " + mod.ID)
+    return out
+
+
+CHECKS = load_checks()
 
 PENDING_REASON = "not claimed yet: the generated check for this property is still under construction (see DESIGN.md section 3)"
 
